@@ -28,7 +28,7 @@ from __future__ import annotations
 import ast
 
 from ..repo import AnalysisError, FuncInfo, dotted, own_nodes
-from .common import only_called_from
+from .common import only_called_from, source_pos
 
 MANIFEST = {
     "text": (
@@ -240,11 +240,12 @@ def run(ctx):
     for bname, (must, mustnot) in COMPOSITION.items():
         f = raw[bname]
         called = []
+        _pos = source_pos(f.node)
         for n in own_nodes(f.node):
             if isinstance(n, ast.Call) and isinstance(n.func, ast.Name):
                 q = repo.resolve(f.module.name, n.func.id)
                 if q and q.split(".")[-1] in (ALL_BLOCKS | {"add_conjunctive_edges", "add_source_sink_edges"}):
-                    called.append((n.lineno, q.split(".")[-1], n))
+                    called.append((_pos(n), q.split(".")[-1], n))
         called.sort()
         names = [c[1] for c in called]
         missing = must - set(names)
@@ -370,6 +371,75 @@ def _solved_pairs(ctx, sg, arc):
         nxt_ok = len(nxt) == 1 and ast.unparse(nxt[0][1]).replace(" ", "") == f"machine_schedule[{iv}+1]"
         direct = isinstance(sg.module.parents.get(sg.module.parents.get(arc)), ast.For)
         ok = guard and nxt_ok and a.startswith(cur + ".") and direct
+    elif it.startswith("range(") and isinstance(inner.target, ast.Name) and isinstance(inner.iter, ast.Call):
+        # index loop: range(len(S) - 1) with (S[i], S[i + 1]) or range(1, len(S)) with (S[i - 1], S[i]);
+        # S is the machine sequence or an in-order projection of it to operation ids
+        iv = inner.target.id
+
+        class _Len(ast.NodeTransformer):
+            """len([f(v) for v in S]) == len(S) when the comprehension has no filter"""
+            def visit_Call(self, node):
+                self.generic_visit(node)
+                if (
+                    isinstance(node.func, ast.Name) and node.func.id == "len" and len(node.args) == 1
+                    and isinstance(node.args[0], (ast.ListComp, ast.GeneratorExp)) and len(node.args[0].generators) == 1
+                    and not node.args[0].generators[0].ifs
+                ):
+                    return ast.Call(func=node.func, args=[node.args[0].generators[0].iter], keywords=[])
+                return node
+
+        import copy as _copy
+
+        rargs = [
+            ast.unparse(_Len().visit(_copy.deepcopy(ctx.norm.xexpr(sg, x)))).replace(" ", "")
+            for x in inner.iter.args
+        ]
+
+        def seq_of(e):
+            """(sequence text, index text, projected?) of an arc argument."""
+            x = ctx.norm.xexpr(sg, e)
+            proj = False
+            if isinstance(x, ast.Attribute) and ast.unparse(x).endswith(".operation.operation_id"):
+                x = x.value.value  # the element
+            else:
+                proj = True
+            if not isinstance(x, ast.Subscript):
+                return None
+            base, idx = x.value, ast.unparse(x.slice).replace(" ", "")
+            bt = ast.unparse(base)
+            if proj:
+                # base must be [<v>.operation.operation_id for <v> in machine_schedule]
+                if not (
+                    isinstance(base, ast.ListComp) and len(base.generators) == 1 and not base.generators[0].ifs
+                    and ast.unparse(base.elt) == f"{ast.unparse(base.generators[0].target)}.operation.operation_id"
+                ):
+                    return None
+                bt = ast.unparse(base.generators[0].iter)
+            return bt, idx
+
+        sa, sb = seq_of(arc.args[0]), seq_of(arc.args[1])
+        direct = isinstance(sg.module.parents.get(sg.module.parents.get(arc)), ast.For)
+        if sa and sb and sa[0] == sb[0] == "machine_schedule" and direct:
+            n_txt = [f"len({t})" for t in ("machine_schedule",)]
+            lens = {"len(machine_schedule)"} | {
+                f"len({ast.unparse(t)})" for n in own_nodes(sg.node) if isinstance(n, ast.Assign) and isinstance(n.value, ast.ListComp)
+                and len(n.value.generators) == 1 and ast.unparse(n.value.generators[0].iter) == "machine_schedule" for t in n.targets
+            }
+            low = (len(rargs) == 1 and any(rargs[0] == f"{ln}-1" for ln in lens) and (sa[1], sb[1]) == (iv, f"{iv}+1"))
+            high = (len(rargs) == 2 and rargs[0] == "1" and rargs[1] in lens and (sa[1], sb[1]) == (f"{iv}-1", iv))
+            ok = low or high
+            if ok:
+                chk.ok("R16.e", sg.qualname, sg.loc(arc), "one arc per consecutive pair of every machine sequence, by operation id (index loop)")
+                return
+        if not (sa and sb):
+            raise AnalysisError("build_solved_disjunctive_graph: pairing of consecutive operations not recognised (index loop)")
+        chk.violation(
+            "R16.e", sg, arc,
+            f"the index loop `{it}` with arc ({ast.unparse(arc.args[0])}, {ast.unparse(arc.args[1])}) does not visit exactly the "
+            "consecutive pairs of each machine sequence",
+            loc=sg.loc(arc),
+        )
+        return
     elif it in ("zip(machine_schedule,machine_schedule[1:])", "itertools.pairwise(machine_schedule)", "pairwise(machine_schedule)"):
         t = inner.target
         direct = isinstance(sg.module.parents.get(sg.module.parents.get(arc)), ast.For)
@@ -423,7 +493,7 @@ def _node_ids(ctx):
                     chk.violation("R16.d", m, n, f"the node id counter is changed by `{ast.unparse(n)}` outside add_node / not by one", loc=m.loc(n))
     assign = [n for n in own_nodes(addn.node) if isinstance(n, ast.Assign) and ast.unparse(n.targets[0]).endswith(".node_id")]
     inc = [n for n in own_nodes(addn.node) if isinstance(n, ast.AugAssign) and ast.unparse(n.target) == "self._next_node_id"]
-    if not assign or ast.unparse(assign[0].value) != "self._next_node_id" or not inc or inc[0].lineno < assign[0].lineno:
+    if not assign or ast.unparse(assign[0].value) != "self._next_node_id" or not inc or source_pos(addn.node)(inc[0]) < source_pos(addn.node)(assign[0]):
         ok = False
         chk.violation("R16.d", addn, assign[0] if assign else None, "add_node does not assign the current counter value before advancing it: node ids do not start at 0")
     # removed_nodes grows with every node
@@ -440,17 +510,28 @@ def _node_ids(ctx):
     xt = lambda e: ctx.norm.xtext(addn, e)  # noqa: E731
     idx_job = False
     idx_m = False
+
+    def backing(prop_name, default):
+        """self.<attr> behind the public property (so private renames do not matter)."""
+        m = g.methods.get(prop_name)
+        if m is not None:
+            for r in own_nodes(m.node):
+                if isinstance(r, ast.Return) and isinstance(r.value, ast.Attribute) and isinstance(r.value.value, ast.Name) and r.value.value.id == "self":
+                    return "self." + r.value.attr
+        return default
+
+    T_JOB, T_MACH = backing("nodes_by_job", "self._nodes_by_job"), backing("nodes_by_machine", "self._nodes_by_machine")
     for n in own_nodes(addn.node):
         if isinstance(n, ast.Call) and isinstance(n.func, ast.Attribute) and n.func.attr == "append" and isinstance(n.func.value, ast.Subscript):
-            tbl = ast.unparse(n.func.value.value)
-            if tbl == "self._nodes_by_job" and xt(n.func.value.slice).endswith("operation.job_id") and n.args and xt(n.args[0]) == node_param:
+            tbl = xt(n.func.value.value)
+            if tbl == T_JOB and xt(n.func.value.slice).endswith("operation.job_id") and n.args and xt(n.args[0]) == node_param:
                 idx_job = True
         if isinstance(n, ast.For) and xt(n.iter).endswith("operation.machines") and isinstance(n.target, ast.Name):
             v = n.target.id
             for x in ast.walk(n):
                 if (
                     isinstance(x, ast.Call) and isinstance(x.func, ast.Attribute) and x.func.attr == "append"
-                    and isinstance(x.func.value, ast.Subscript) and ast.unparse(x.func.value.value) == "self._nodes_by_machine"
+                    and isinstance(x.func.value, ast.Subscript) and xt(x.func.value.value) == T_MACH
                     and ast.unparse(x.func.value.slice) == v and x.args and xt(x.args[0]) == node_param
                 ):
                     idx_m = True
@@ -475,7 +556,7 @@ def _node_ids(ctx):
         ok = False
         chk.violation("R16.d", init, None, "JobShopGraph does not add the operation nodes first by default")
     # job-major order, one node per operation
-    fors = sorted([n for n in own_nodes(addops.node) if isinstance(n, ast.For)], key=lambda n: n.lineno)
+    fors = sorted([n for n in own_nodes(addops.node) if isinstance(n, ast.For)], key=source_pos(addops.node))
     if not (len(fors) == 2 and ast.unparse(fors[0].iter) == "self.instance.jobs" and ast.unparse(fors[1].iter) == ast.unparse(fors[0].target)):
         ok = False
         chk.violation("R16.d", addops, fors[0] if fors else None, "operation nodes are not added in job-major order over instance.jobs")
